@@ -5,6 +5,7 @@ need no copying.  Loops are cut at their invariants, calls are replaced by calle
 statement that can raise under assumption A5 forks an exceptional path.
 """
 import ast
+import threading
 import time
 
 import z3
@@ -165,6 +166,7 @@ class Exec:
         self.pending = []
         self.consumed = []
         self._qmemo = {}
+        self._pcsat = {}
         self.trace = []
         self.loop_stack = []
         self.warned = z3.BoolVal(False)
@@ -175,7 +177,22 @@ class Exec:
     def _solver(self, ms):
         s = z3.Solver()
         s.set("timeout", ms)
+        s._budget_ms = ms
         return s
+
+    def zcheck(self, s):
+        """solver.check() with a hard stop: z3's own timeout is not honoured in every phase (a
+        matching loop can spin for minutes), so a watchdog interrupts the context after the budget."""
+        ms = getattr(s, "_budget_ms", self.timeout_ms)
+        t = threading.Timer(ms / 1000.0 * 1.5 + 1.0, z3.main_ctx().interrupt)
+        t.daemon = True
+        t.start()
+        try:
+            return s.check()
+        except z3.Z3Exception:
+            return z3.unknown
+        finally:
+            t.cancel()
 
     def _check(self, extra, ground_only, ms):
         self.stats["feas"] += 1
@@ -194,7 +211,7 @@ class Exec:
                 if q[0]:
                     continue
             s.add(f)
-        return s.check()
+        return self.zcheck(s)
 
     def decide(self, cond):
         """Path pruning: returns (can_be_true, can_be_false).
@@ -274,12 +291,25 @@ class Exec:
         s.add(self.c.axioms)
         s.add(self.pc)
         s.add(z3.Not(goal))
-        r = s.check()
+        r = self.zcheck(s)
+        if r == z3.unknown and time.time() - t < self.timeout_ms / 2000.0:
+            r = self.zcheck(s)  # a stale watchdog interrupt must not decide a verdict: ask again
         secs = time.time() - t
         model = None
         reason = None
         if r == z3.unsat:
             status = "discharged"
+            if self.mode == "g":
+                # a finite universe can make the path condition itself unsatisfiable (too few ids for
+                # the distinct constants on the path): such a verdict says nothing
+                key = (len(self.pc), len(self.c.axioms))
+                if key not in self._pcsat:
+                    s2 = self._solver(self.timeout_ms)
+                    s2.add(self.c.axioms)
+                    s2.add(self.pc)
+                    self._pcsat[key] = self.zcheck(s2)
+                if self._pcsat[key] == z3.unsat:
+                    status = "vacuous"
         elif r == z3.sat:
             status = "refuted"
             if self.mode == "g":
@@ -420,7 +450,7 @@ class Exec:
         net.f["_net_attr"] = VAttr(fr("neth", c.SetId), fr("netv", c.MapVal))
         net.f["_edge_uid"] = VCounter(fr("uid", z3.IntSort()))
         net.frozen_flag = fr("frozen", z3.BoolSort())
-        net.shadow = fr("shadow", c.SetId)
+        net.shadow = Shadow(name, True)
         self.keys_hashable(net)
         return net
 
@@ -447,7 +477,7 @@ class Exec:
         net.f["_net_attr"] = VAttr(c.EMPTY, c.fresh("j", c.MapVal))
         net.f["_edge_uid"] = VCounter(z3.IntVal(0))
         net.frozen_flag = z3.BoolVal(False)
-        net.shadow = c.EMPTY
+        net.shadow = Shadow("new", False)
         return net
 
     def havoc_net(self, net, fields=None):
@@ -596,7 +626,7 @@ class Exec:
             s = self._solver(self.timeout_ms)
             s.add(c.axioms)
             s.add(self.pc)
-            r = s.check()
+            r = self.zcheck(s)
             st = "discharged" if r == z3.sat or (r == z3.unknown and self.mode == "q") else "refuted"
             if r == z3.unknown and self.mode == "q":
                 st = "sat-unknown"
@@ -782,7 +812,7 @@ class Exec:
                 return
             # instance attribute (freeze installs `frozen` over method names)
             if isinstance(v, VBuiltin) and v.name == "frozen":
-                obj.shadow = self.c.add(obj.shadow, self.c.strlit(name))
+                obj.shadow.set(name)
                 obj.inst[name] = v
                 return
             raise Unsupported("attribute store %s" % name)
@@ -1729,8 +1759,7 @@ class Exec:
         if qual is None:
             raise Unsupported("method %s not found on %s" % (name, net.kind))
         # a frozen instance shadows some methods with exception.frozen (C18)
-        sh = z3.Select(net.shadow, c.strlit(name)) if net.shadow is not None else z3.BoolVal(False)
-        if self.branch(sh):
+        if self.branch(net.shadow.of(name)):
             raise SymRaise("XGIError", w)
         spec = REGISTRY.get(qual)
         if spec is None:
@@ -1795,6 +1824,8 @@ class Exec:
         which = self.choose(1 + len(excs)) if excs else 0
         result = self.result_value(spec, A, nets)
         if which == 0:
+            if getattr(spec, "effect", None):
+                spec.effect(self, A, nets)
             R = Res(self, A, nets, result, None)
             for cl in spec.ensures + spec.ensures_all:
                 self.assume(cl.fn(c, A, R))
